@@ -11,7 +11,10 @@ Definition cls (numeric : string -> bool) (n : string) : token := if numeric n t
 (** a literal the lexer returns whole when it is followed by [rest] *)
 Definition lexable (n : string) : Prop :=
   n <> "" /\ match n with String c _ => is_ws c = false | EmptyString => True end /\
-  forall_chars (is_ident false) n = true.
+  forall_chars (is_ident false) n = true /\ no_nul n = true.
+
+Lemma comment_ok_chars : forall c, comment_ok c = true -> forall_chars comment_char c = true.
+Proof. intros c H. unfold comment_ok in H. apply andb_true_iff in H. tauto. Qed.
 
 Definition nodeprev (p : option token) : Prop :=
   p = Some CLOSEPAR \/ p = Some IDENT \/ p = Some NUMERIC \/ p = Some CLOSEBRACK.
@@ -85,8 +88,8 @@ Section Step.
       step (mkS (f :: fs) dr L p pe) (n ++ rest) =
       Cont (mkS (mkF n [] [None] (Some e0) :: f :: fs) dr L (Some (cls numeric n)) pe) rest.
   Proof.
-    intros n rest f fs dr L p pe [Hne [Hws Hall]] Hstop Hp.
-    unfold Newick.step. rewrite (scan_iw_ident numeric n rest Hne Hws Hall Hstop).
+    intros n rest f fs dr L p pe [Hne [Hws [Hall Hnn]]] Hstop Hp.
+    unfold Newick.step. rewrite (scan_iw_ident numeric n rest Hne Hws Hall Hnn Hstop).
     unfold cls. destruct Hp; subst p; destruct (numeric n); reflexivity.
   Qed.
 
@@ -97,8 +100,8 @@ Section Step.
       exists pe', step (mkS (f :: fs) dr L (Some CLOSEPAR) pe) (n ++ rest) =
                   Cont (mkS (set_name n f :: fs) dr L (Some CLOSEPAR) pe') rest.
   Proof.
-    intros n rest f fs dr L pe [Hne [Hws Hall]] Hstop Hnum Hsplit.
-    unfold Newick.step. rewrite (scan_iw_ident numeric n rest Hne Hws Hall Hstop).
+    intros n rest f fs dr L pe [Hne [Hws [Hall Hnn]]] Hstop Hnum Hsplit.
+    unfold Newick.step. rewrite (scan_iw_ident numeric n rest Hne Hws Hall Hnn Hstop).
     rewrite Hnum. cbn.
     destruct (split2 n) as [[v0 v1]|] eqn:Es.
     - destruct (fedge f).
@@ -114,8 +117,8 @@ Section Step.
       step (mkS (f :: fs) dr L (Some CLOSEPAR) pe) (n ++ rest) =
       Cont (mkS (set_name n f :: fs) dr L (Some CLOSEPAR) pe) rest.
   Proof.
-    intros n rest f fs dr L pe [Hne [Hws Hall]] Hstop Hnum He.
-    unfold Newick.step. rewrite (scan_iw_ident numeric n rest Hne Hws Hall Hstop).
+    intros n rest f fs dr L pe [Hne [Hws [Hall Hnn]]] Hstop Hnum He.
+    unfold Newick.step. rewrite (scan_iw_ident numeric n rest Hne Hws Hall Hnn Hstop).
     rewrite Hnum. cbn. rewrite He. destruct (split2 n) as [[v0 v1]|]; reflexivity.
   Qed.
 
@@ -126,8 +129,8 @@ Section Step.
       step (mkS (f :: fs) dr L (Some CLOSEPAR) pe) (lit ++ rest) =
       Cont (mkS (map_edge (set_sup y) f :: fs) dr L (Some CLOSEPAR) false) rest.
   Proof.
-    intros lit y rest f e' fs dr L pe [Hne [Hws Hall]] Hstop Hnum Hp He HL.
-    unfold Newick.step. rewrite (scan_iw_ident numeric lit rest Hne Hws Hall Hstop).
+    intros lit y rest f e' fs dr L pe [Hne [Hws [Hall Hnn]]] Hstop Hnum Hp He HL.
+    unfold Newick.step. rewrite (scan_iw_ident numeric lit rest Hne Hws Hall Hnn Hstop).
     rewrite Hnum. cbn. rewrite He. apply Z.eqb_neq in HL. rewrite HL.
     unfold with_num. rewrite Hp. reflexivity.
   Qed.
@@ -140,8 +143,8 @@ Section Step.
       step (mkS (f :: fs) dr L (Some CLOSEPAR) pe) (lit ++ rest) =
       Cont (mkS (map_edge (fun e => set_pv y (set_sup x e)) f :: fs) dr L (Some CLOSEPAR) false) rest.
   Proof.
-    intros lit a b x y rest f e' fs dr L pe [Hne [Hws Hall]] Hstop Hnum Hs Ha Hb Hx Hy He.
-    unfold Newick.step. rewrite (scan_iw_ident numeric lit rest Hne Hws Hall Hstop).
+    intros lit a b x y rest f e' fs dr L pe [Hne [Hws [Hall Hnn]]] Hstop Hnum Hs Ha Hb Hx Hy He.
+    unfold Newick.step. rewrite (scan_iw_ident numeric lit rest Hne Hws Hall Hnn Hstop).
     rewrite Hnum. cbn. rewrite Hs, He, Ha, Hb. unfold with_num. rewrite Hx, Hy. reflexivity.
   Qed.
 
@@ -152,11 +155,11 @@ Section Step.
       step (mkS (f :: fs) dr L p pe) (String ":" (lit ++ rest)) =
       Cont (mkS (map_edge (set_len y) f :: fs) dr L (Some STARTLEN) false) rest.
   Proof.
-    intros lit y rest f e' fs dr L p pe [Hne [Hws Hall]] Hstop Hnum Hp He Hpres HL.
+    intros lit y rest f e' fs dr L p pe [Hne [Hws [Hall Hnn]]] Hstop Hnum Hp He Hpres HL.
     unfold Newick.step.
     replace (scan_iw numeric (String ":" (lit ++ rest)))
       with (STARTLEN, ":", lit ++ rest, String ":" (lit ++ rest)) by reflexivity.
-    cbv beta iota. rewrite (scan_iw_ident numeric lit rest Hne Hws Hall Hstop).
+    cbv beta iota. rewrite (scan_iw_ident numeric lit rest Hne Hws Hall Hnn Hstop).
     rewrite Hnum. cbn. apply Z.eqb_neq in HL. rewrite HL. cbn. rewrite He, Hpres.
     unfold with_num. rewrite Hp. reflexivity.
   Qed.
@@ -171,7 +174,7 @@ Section Step.
     replace (scan_iw numeric (String "[" (c ++ String "]" rest)))
       with (OPENBRACK, "[", c ++ String "]" rest, String "[" (c ++ String "]" rest)) by reflexivity.
     cbv beta iota.
-    rewrite (consume_comment_spec numeric _ c "" rest); [|rewrite length_app_s; simpl; lia|exact Hc].
+    rewrite (consume_comment_spec numeric _ c "" rest); [|rewrite length_app_s; simpl; lia|apply comment_ok_chars; exact Hc].
     cbn. destruct Hp as [Hp|[Hp|[Hp|Hp]]]; subst p; reflexivity.
   Qed.
 
@@ -184,7 +187,7 @@ Section Step.
     replace (scan_iw numeric (String "[" (c ++ String "]" rest)))
       with (OPENBRACK, "[", c ++ String "]" rest, String "[" (c ++ String "]" rest)) by reflexivity.
     cbv beta iota.
-    rewrite (consume_comment_spec numeric _ c "" rest); [|rewrite length_app_s; simpl; lia|exact Hc].
+    rewrite (consume_comment_spec numeric _ c "" rest); [|rewrite length_app_s; simpl; lia|apply comment_ok_chars; exact Hc].
     cbn. rewrite He. reflexivity.
   Qed.
 
